@@ -75,7 +75,7 @@ NOTE_B = ("Trusted: the ~200-line reference model written from the documentation
 
 
 def main():
-    have_b = os.path.exists(os.path.join(ROOT, 'sim', 'hdriver.py'))
+    have_b = os.path.exists(os.path.join(ROOT, 'sim', 'hcases.py'))
     checks = []
     for pid, (eng, level, ref, tech, text) in CHECKS.items():
         if eng == B and not have_b:
